@@ -225,13 +225,44 @@ VARIANTS = {
                '--target-dir', 'target/plain'], 'target/plain/release/avdrive'),
     'nightly': (['cargo', '+nightly', 'build', '--release', '--features', 'nightly',
                  '--target-dir', 'target/nightly'], 'target/nightly/release/avdrive'),
+    # no features at all: neither std nor libm (no float functions: Skewness, Kurtosis, Quantile, error(), pearson(),
+    # standardized_moment() do not exist), no serde, no rayon.  The crate's own test suite cannot even be compiled this way.
+    'bare': (['cargo', 'build', '--release', '--no-default-features', '--target-dir', 'target/bare'], 'target/bare/release/avdrive'),
+    # the std build compiled for the machine's own CPU (-C target-cpu=native): code under cfg(target_feature = "fma" / "avx2" ...)
+    # and whatever the vectoriser does differently
+    'native': (['cargo', 'build', '--release', '--no-default-features', '--features', 'std,rayon,serde',
+                '--target-dir', 'target/native'], 'target/native/release/avdrive'),
     # ThreadSanitizer build (std rebuilt with the sanitizer, otherwise "ABI mismatch"); used by the thorough tier of C19
     'tsan': (['cargo', '+nightly', 'build', '-Zbuild-std', '--target', 'x86_64-unknown-linux-gnu', '--release',
               '--target-dir', 'target/tsan'], 'target/tsan/x86_64-unknown-linux-gnu/release/avdrive'),
 }
-VARIANT_ENV = {'tsan': {'RUSTFLAGS': '-Zsanitizer=thread'}}
+VARIANT_ENV = {'tsan': {'RUSTFLAGS': '-Zsanitizer=thread'}, 'native': {'RUSTFLAGS': '-C target-cpu=native'}}
 
 _built = {}
+
+NO_SERDE = ('plain', 'bare')
+NO_RAYON = ('plain', 'bare')
+BARE_ABSENT_TYPES = ('Skewness', 'Kurtosis', 'Quantile', 'CatVarQ', 'Cat5', 'CatSk3')
+
+
+def has_serde(variant):
+    return variant not in NO_SERDE
+
+
+def has_rayon(variant):
+    return variant not in NO_RAYON
+
+
+def has_type(variant, typ):
+    return not (variant == 'bare' and (typ in BARE_ABSENT_TYPES or typ.startswith('Probe')))
+
+
+def absent_ok(variant, name):
+    """Accessors that do not exist in the build without std / libm.  (If the driver does report one there - the crate grew
+    the method - it is judged like anywhere else.)"""
+    return variant == 'bare' and (name in ('error', 'pearson', 'sample_skewness', 'sample_excess_kurtosis')
+                                  or (name.startswith('sm') and name[2:].isdigit()))
+
 
 
 def cargo_env():
